@@ -188,9 +188,10 @@ def attach(c, objs, what, variant="plain"):
         else:
             c.violation("%s: after the documented call history %s the objects do not behave as specified (Workflow.tla): %s" % (
                 what, json.dumps(f["scenario"]["calls"][-8:]), f["detail"]), f["scenario"], cls="workflow:" + f["kind"])
-    if not r.get("cached"):
-        c.states += r["states"]
-        c.transitions += r["transitions"]
+    # the replay is computed once per (tree, harness, specification, tier, seed) and shared by the checks that use it; the counts describe
+    # that run whether this invocation performed it or found its result under build/<tree-hash>/ (extra.workflow_*.cached says which)
+    c.states += r["states"]
+    c.transitions += r["transitions"]
     c.traces += r["scenarios"]
     c.evaluations += r["accepted_events"]
     c.nontriv("workflow transition graph (%d transitions, %d scenarios replayed, %s build)" % (r["graph"]["transitions"], r["scenarios"], variant))
